@@ -392,6 +392,30 @@ def _check_evalpts(ctx, lv, what, step_sig):
     if not ok:
         ctx.fail("stale_evalpts", "after %s evalpts differ from a fresh evaluation of the same definition (%s)" % (what, why), **step_sig)
     ctx.probe("evalpts_checked_after_modification")
+    # a twin shares the process (and any process-wide memo) with the live object: the sampled points are also compared with the
+    # ORIGINAL function evaluated by the reference model on the sample grid (first direction outermost)
+    ss = lv.obj.sample_size
+    ss = [ss] if lv.nd == 1 else list(ss)
+    tot = 1
+    for n_ in ss:
+        tot *= n_
+    if all(n_ >= 2 for n_ in ss) and tot <= 130 and len(got) == tot:
+        dom = [(lv.knots[d][lv.degrees[d]], lv.knots[d][-lv.degrees[d] - 1]) for d in range(lv.nd)]
+        grids = [[lo + (hi - lo) * x / float(ss[d] - 1) for x in range(ss[d])] for d, (lo, hi) in enumerate(dom)]
+        ref = []
+
+        def rec(d, cur):
+            if d == lv.nd:
+                ref.append([float(x) for x in lv.F0.eval(cur)])
+                return
+            for v in grids[d]:
+                rec(d + 1, cur + [v])
+        rec(0, [])
+        scale = max(1.0, max(abs(float(c)) for p_ in lv.F0.P for c in p_))
+        ok, why = close(got, ref, 1e-8, scale)
+        ctx.probe("evalpts_checked_against_reference_model")
+        if not ok:
+            ctx.fail("stale_evalpts", "after %s evalpts are not the original shape sampled on the %r grid (reference model): %s" % (what, ss, why), **step_sig)
 
 
 def _views(lv):
